@@ -1,5 +1,7 @@
 """Shared machinery of the file properties (C01 XML round trip, C02 protobuf round trip, C03 XSD validity)."""
 import os
+
+import numpy as np
 import shutil
 import tempfile
 import warnings
@@ -33,6 +35,40 @@ def writer_args(r):
     return args, eff
 
 
+def reassign_polygon_rings(sc, pps):
+    """Every polygon of obstacles, occupancy sets and goal regions gets its own vertex ring re-assigned through the
+    public ``vertices`` setter WITHOUT the closing vertex (the constructor accepts open rings, so does the setter);
+    returns the number of polygons touched."""
+    from commonroad.geometry.shape import Polygon, ShapeGroup
+    from commonroad.prediction.prediction import SetBasedPrediction, TrajectoryPrediction
+    n = 0
+
+    def visit(sh):
+        nonlocal n
+        if isinstance(sh, Polygon):
+            v = np.asarray(sh.vertices, dtype=float)
+            if len(v) >= 4 and np.array_equal(v[0], v[-1]):
+                sh.vertices = v[:-1].copy()
+                n += 1
+        elif isinstance(sh, ShapeGroup):
+            for m in sh.shapes:
+                visit(m)
+    for o in sc.obstacles:
+        if hasattr(o, "obstacle_shape"):
+            visit(o.obstacle_shape)
+        p = getattr(o, "prediction", None)
+        if isinstance(p, SetBasedPrediction):
+            for oc in p.occupancy_set:
+                visit(oc.shape)
+        elif isinstance(p, TrajectoryPrediction):
+            visit(p.shape)
+    for pp in pps.planning_problem_dict.values():
+        for st_ in pp.goal.state_list:
+            if hasattr(st_, "position"):
+                visit(st_.position)
+    return n
+
+
 def write_file(r, fmt, path, sc=None, pps=None, decimals=None):
     """Writes the recipe. Optional recipe keys: "decoy" = [format, decimals] - another writer (for a tiny other
     scenario) is constructed between the construction and the use of the writer under test; "reuse" = True - the
@@ -41,6 +77,8 @@ def write_file(r, fmt, path, sc=None, pps=None, decimals=None):
     sc = sc if sc is not None else gs.build_scenario(r)
     pps = pps if pps is not None else gs.build_pps(r["pps"])
     args, _ = writer_args(r)
+    if r.get("open_rings"):
+        reassign_polygon_rings(sc, pps)
     ff = FileFormat.XML if fmt == "xml" else FileFormat.PROTOBUF
     w = CommonRoadFileWriter(sc, pps, args["author"], args["affiliation"], args["source"], args["tags"],
                              decimal_precision=decimals if decimals is not None else r.get("decimals", 4),
@@ -71,6 +109,27 @@ def write_file(r, fmt, path, sc=None, pps=None, decimals=None):
     return sc, pps
 
 
+def la_domain(r):
+    """Lanelet assignment while reading is defined (C07) for static obstacles and dynamic obstacles with a trajectory
+    prediction or none, with exact positions and orientations."""
+    def exact(s):
+        a = s["a"]
+        return (isinstance(a.get("position"), list) and len(a["position"]) == 2 and
+                all(isinstance(x, (int, float)) for x in a["position"]) and
+                isinstance(a.get("orientation"), (int, float)))
+    for o in r["obstacles"]:
+        if o["role"] not in ("static", "dynamic"):
+            continue
+        if not exact(o["init"]) or o["shape"]["k"] == "group":      # (find_lanelet_by_shape asserts a single shape)
+            return False
+        p = o.get("pred")
+        if p is not None and (p.get("shape") or {}).get("k") == "group":
+            return False
+        if p is not None and (p["k"] != "traj" or not all(exact(s) for s in p["traj"]["states"])):
+            return False
+    return True
+
+
 def roundtrip(r, fmt):
     d = tempfile.mkdtemp(prefix="crverif-io-")
     try:
@@ -79,7 +138,8 @@ def roundtrip(r, fmt):
         with open(path, "rb") as f:
             data = f.read()
         ff = FileFormat.XML if fmt == "xml" else FileFormat.PROTOBUF
-        sc2, pps2 = CommonRoadFileReader(path, file_format=ff).open()
+        # "read_la": the file is opened with lanelet assignment; everything the file states must read back the same
+        sc2, pps2 = CommonRoadFileReader(path, file_format=ff).open(lanelet_assignment=bool(r.get("read_la")) and la_domain(r))
         return data, sc2, pps2
     finally:
         shutil.rmtree(d, ignore_errors=True)
